@@ -91,13 +91,13 @@ func uniqueScript(i int) []byte {
 
 // universeCfg are the per-run structural draws.
 type universeCfg struct {
-	nBase  int    // pre-existing outpoints 1..3
-	kinds  []int  // script kind per base outpoint
-	nTx    int    // 2..6
-	first  []int  // first input (op index) per tx
-	second []int  // second input (op index or -1) per tx
-	child  bool   // last tx spends output 0 of tx 0
-	reuse  []int  // per tx: additional output paying the pool script of this op (-1 none)
+	nBase  int   // pre-existing outpoints 1..3
+	kinds  []int // script kind per base outpoint
+	nTx    int   // 2..6
+	first  []int // first input (op index) per tx
+	second []int // second input (op index or -1) per tx
+	child  bool  // last tx spends output 0 of tx 0
+	reuse  []int // per tx: additional output paying the pool script of this op (-1 none)
 }
 
 func buildUniverse(c universeCfg) *universe {
